@@ -105,7 +105,7 @@ func effectiveKey(spec RenderSpec) string {
 		if spec.Via == ViaAuto || spec.Via == ViaPkg {
 			return "html/f0"
 		}
-		return fmt.Sprintf("html/f%d", spec.Flags&3)
+		return fmt.Sprintf("html/f%d", spec.Flags&3) // the template name does not show in the output
 	}
 	return fmtNames[spec.Format]
 }
@@ -118,7 +118,7 @@ func (engC14) ID() string    { return "C14" }
 func (engC14) Level() string { return "exploration" }
 func (engC14) Runs(tier string) int {
 	if tier == "thorough" {
-		return 400000
+		return 8000000
 	}
 	return 12000
 }
@@ -143,6 +143,9 @@ func (engC14) Gen(r *Rng, s *Script, idx int, tier string) {
 		s.Steps = append(s.Steps, Step{Op: "headers", Items: genItems(r, r.Range(1, 4), 1, &ctr)})
 	}
 	nb := r.Range(0, 10)
+	if tier == "thorough" && r.Chance(1, 3) {
+		nb = r.Range(8, 30)
+	}
 	level := 1 + r.Intn(2)
 	for i := 0; i < nb; i++ {
 		switch r.Pick([]int{10, 3, 1, 1, 2}) {
